@@ -18,6 +18,17 @@ def _hang(msg):
     let library `except Exception` clauses swallow the error and run without baton discipline."""
     import faulthandler
     sys.stderr.write('SIMULATION HANG: %s\n' % msg)
+    try:
+        from . import simlock
+        last = simlock.TRACE[-1][1] if simlock.TRACE else None
+        ev = [e for e in simlock.TRACE if e[1] == last]
+        first_leak = 0
+        for i, e in enumerate(ev):
+            if e[0] == 'rel':
+                first_leak = i
+        sys.stderr.write('events of the contended lock since its last release: %r\n' % (ev[max(0, first_leak - 3):first_leak + 12],))
+    except Exception:   # noqa
+        pass
     faulthandler.dump_traceback(file=sys.stderr, all_threads=True)
     sys.stderr.flush()
     os._exit(4)
@@ -153,8 +164,21 @@ class Baton:
     def _site(self, frame):
         return '%s:%d' % (os.path.basename(frame.f_code.co_filename), frame.f_lineno)
 
+    @staticmethod
+    def _unsafe_fault_point(frame):
+        """A line event on a `with` / `try:` header can fire AFTER __enter__ / acquire() has run but before the block's
+        handler is armed (CPython re-enters the header line when the call returns). Only an asynchronous exception can
+        land there in real life, and the standard `with lock:` idiom is not expected to survive that: an injected
+        abort / allocation failure is postponed to the next line instead of leaking the lock."""
+        import linecache
+        text = linecache.getline(frame.f_code.co_filename, frame.f_lineno).lstrip()
+        return text.startswith(('with ', 'try:', 'async with '))
+
     def _fire_fault(self, client, frame):
         kind = client.fault_kind
+        if kind != 'stall' and self._unsafe_fault_point(frame):
+            client.fault_at = client.step_in_op + 1
+            return
         client.fault_at = -1
         client.op_faulted = True
         self.faults_fired.append([client.cid, client.op_idx, client.step_in_op, kind, self._site(frame)])
@@ -190,6 +214,8 @@ class Baton:
         client.op_dirty_seen = True
         if not client.op_faulted:
             k = self.policy.dirty_fault(self, client, first, why)
+            if k == 'abort' and frame is not None and self._unsafe_fault_point(frame):
+                k = None
             if k is not None:
                 client.op_faulted = True
                 self.faults_fired.append([client.cid, client.op_idx, client.step_in_op, 'dirty-' + k, self._site(frame), why])
@@ -213,7 +239,10 @@ class Baton:
             self.policy.note_forced(self, me, why)
         self._handover(target)
         if not me.go.wait(self.hang_s):
-            _hang('client %d never got the baton back after switching to client %d at %s (%s)' % (me.cid, target.cid, site, why))
+            _hang('client %d never got the baton back after switching to client %d at %s (%s); clients: %r' % (
+                me.cid, target.cid, site, why,
+                [(c.cid, 'done' if c.done else 'live', c.op_idx, 'in_op' if c.in_op else '-', 'stalled' if c.stalled else '-',
+                  None if c.blocked_on is None else getattr(c.blocked_on, '_owner', '?')) for c in self.clients]))
         me.go.clear()
         self.policy.on_resume(self, me)
 
